@@ -1,6 +1,7 @@
 import PlasVerif.Proofs.FilenamesExpand
 import PlasVerif.Proofs.FilenamesBudget
 import PlasVerif.Proofs.FilenamesRefine
+import PlasVerif.Proofs.FilenamesWorld
 /-!
 # C15 — The filename generator yields unique, clean names in template order
 
@@ -310,5 +311,31 @@ example :
       [.name (s "index.html"), .name (s "a.html"), .name (s "A-b.html"), .name (s "sect002.html")] ∧
     srun cfg0 (sinit [[Seg.lit (s "index")]] w0 [] [s "sect001.html"]) bs =
       [.name (s "index.html"), .name (s "a.html"), .name (s "A-b.html"), .name (s "sect002.html")] := by decide
+
+/-! ### Several generators in one process
+
+A process is a list of `Filenames` objects (`Model.runW`): objects are created, variables are bound on one
+of them and one of them is called, in any interleaving (the page-name and the image-name generator of a
+run live side by side). -/
+
+/-- **Every object answers from its own bindings and its own taken set**: in any schedule the results
+    reported for object `j` are exactly those of object `j` run alone on the bind / call steps addressed to
+    it — neither the creation of other objects nor bindings or calls on them are visible. -/
+theorem generators_independent (j : Nat) (ops : List WOp) (w : List Gen) (g : Gen) (h : w[j]? = some g) :
+    resultsOf j (runW w ops) = runG g (proj j ops) :=
+  world_independent j ops w g h
+
+/-- … and an object driven "bind this request's variables, then call" is the request history all other
+    theorems speak about, so each of them holds per object in any interleaving. -/
+theorem object_history (g : Gen) (bs : List Env) :
+    runG g (bs.flatMap (fun b => [some b, none])) = results g.cfg g.st bs :=
+  runG_requests bs g
+
+example :
+    let pages : Gen := ⟨cfg0, initial [.name (s "index"), .alts [s "${id}", s "sect${num.2}"]] [] []⟩
+    let images : Gen := ⟨{ cfg0 with ext := s ".png" }, initial [.alts [s "${id}", s "img${num.2}"]] [] []⟩
+    runW [] [.new pages, .new images, .call 0, .bind 0 [(s "id", s "intro")], .call 1, .call 0, .call 0, .call 1] =
+      [(0, .name (s "index.html")), (1, .name (s "img01.png")), (0, .name (s "intro.html")),
+       (0, .name (s "sect01.html")), (1, .name (s "img02.png"))] := by decide
 
 end PlasVerif.Properties.C15
